@@ -171,6 +171,7 @@ def _analyze(fx, entries, assumptions=None, profile="dev", hooks=None, tag=None,
     value_used = _value_used(fx, cg, clo)
     params = {}
     entry_cells = {}
+    closure_caps = {}
     seen_sites = {}
     for fid in reversed(topo):
         fn = fx.fns[fid]
@@ -186,6 +187,19 @@ def _analyze(fx, entries, assumptions=None, profile="dev", hooks=None, tag=None,
                 piv = {}
             else:
                 piv = {l: v for l, v in piv.items() if v is not None}
+        if fn["kind"] == "Closure" and fid not in res.cyclic and closure_caps.get(fid):
+            # integers captured by the closure: joined over its creation sites (a closure has one creation site per body;
+            # a site inside a loop is joined with itself by the fixpoint of the parent)
+            env_ref = body.locals[1]["ty"].startswith("&") if body.argc >= 1 else False
+            ck = {}
+            for (ci, byref), v in closure_caps[fid].items():
+                if v is None:
+                    continue
+                key = (1,) + (("deref",) if env_ref else ()) + (".%d" % ci,) + (("deref",) if byref else ())
+                ck[key] = v
+            if ck:
+                piv = dict(piv or {})
+                piv["#cellkeys"] = ck
         if not (fid in entries or fid in value_used or fid in res.cyclic or fn["kind"] == "Closure") and entry_cells.get(fid):
             piv = dict(piv)
             piv["#cells"] = {k: v for k, v in entry_cells[fid].items() if v is not None}
@@ -193,6 +207,18 @@ def _analyze(fx, entries, assumptions=None, profile="dev", hooks=None, tag=None,
         it.run(collect=True)
         res.interps[fid] = it
         res.params[fid] = piv
+        for cdef, caps in it.closure_caps:
+            cur = closure_caps.get(cdef)
+            if cur is None:
+                closure_caps[cdef] = dict(caps)
+            else:
+                for k in list(cur):
+                    if cur[k] is None:
+                        continue
+                    if k in caps:
+                        cur[k] = (min(cur[k][0], caps[k][0]), max(cur[k][1], caps[k][1]), cur[k][2])
+                    else:
+                        cur[k] = None
         # integer cells below reference arguments: intersection over all call sites = the callee's entry state
         for b, callee, cc in it.call_cells:
             if callee not in clo:
